@@ -10,7 +10,8 @@ def name_fn(D):
     return lambda p: gen.display_name(D.T, p, D.naming)
 
 def truth_roots(D):
-    nf = name_fn(D)
+    # (the TaxRange labels of the file may be written with the tree's own names although the analysis synthesises its names)
+    nf = (lambda p: gen.display_name(D.T, p, 'own')) if D.meta.get('labels_own') else name_fn(D)
     return [(tid, tr.truth(nf, p, l)) for p, l, tid in D.families]
 
 def refs_of(elems):
@@ -219,6 +220,18 @@ def c05_pair(h, ga, gd):
         bad.append('ancestor size identity (%s vs %s)' % (ga.name, gd.name))
     if m.ancestor is not ga or m.descendant is not gd:
         bad.append('ancestor/descendant roles wrong (%s vs %s)' % (ga.name, gd.name))
+    # looking genes up in the returned dictionaries (a miss raises KeyError) changes nothing
+    before = (set(map(id, m.DUPLICATE)), set(map(id, m.RETAINED)))
+    v2 = h.compare_genomes_vertically(ga, gd)
+    for x in list(ga.genes):
+        for d_ in (v2.get_duplicated(), v2.get_retained()):
+            try:
+                d_[x]
+            except KeyError:
+                pass
+    m2 = ob._PubView(h.compare_genomes_vertically(ga, gd))
+    if (set(map(id, m2.DUPLICATE)), set(map(id, m2.RETAINED))) != before:
+        bad.append('the comparison %s vs %s lists other ancestors after genes were looked up in its dictionaries' % (ga.name, gd.name))
     return bad
 
 def c05(D, h, pairs=None):
@@ -281,6 +294,16 @@ def c07(D, h, triples=None):
         chained = set(id(g) for g in gs[c].genes if bc.upMap[g][0] is None or ab.upMap[bc.upMap[g][0]][0] is None)
         if gain_ac != chained:
             bad.append('gains over %s>%s not determined by chaining through %s' % (taxS(a), taxS(c), taxS(b)))
+        dup_ac = set(id(g) for v in ac.DUPLICATE.values() for g in v)
+        dup_chained = set(id(g) for g in gs[c].genes if bc.upMap[g][0] is not None and ab.upMap[bc.upMap[g][0]][0] is not None
+                          and (bool(bc.upMap[g][1]) or bool(ab.upMap[bc.upMap[g][0]][1])))
+        if dup_ac != dup_chained:
+            bad.append('duplicated set over %s>%s not determined by chaining through %s' % (taxS(a), taxS(c), taxS(b)))
+        ret_ac = set(id(g) for g in ac.RETAINED.values())
+        ret_chained = set(id(g) for g in gs[c].genes if bc.upMap[g][0] is not None and ab.upMap[bc.upMap[g][0]][0] is not None
+                          and not (bool(bc.upMap[g][1]) or bool(ab.upMap[bc.upMap[g][0]][1])))
+        if ret_ac != ret_chained:
+            bad.append('retained set over %s>%s not determined by chaining through %s' % (taxS(a), taxS(c), taxS(b)))
         lost_ac = set(map(id, ac.LOSS))
         reach = set(id(ab.upMap[bc.upMap[g][0]][0]) for g in gs[c].genes if bc.upMap[g][0] is not None and ab.upMap[bc.upMap[g][0]][0] is not None)
         if lost_ac != set(map(id, gs[a].genes)) - reach:
@@ -497,6 +520,13 @@ def c16(D, h):
         for n in fam:
             if n.get_top_level_hog() is not top:
                 bad.append('%s reports another top-level HOG' % nodekey(n))
+            if isinstance(n, ag.Gene):
+                # ... also through the analysis: the family of a member gene is the family that lists it
+                try:
+                    if h.get_hog_by_gene(n) is not top:
+                        bad.append('get_hog_by_gene(%s) is not the top-level HOG the gene sits in' % n.unique_id)
+                except Exception as e:      # noqa
+                    bad.append('get_hog_by_gene(%s) raised %s' % (n.unique_id, type(e).__name__))
             if not isinstance(n, ag.HOG):
                 continue
             sub_nodes = list(all_nodes(n))
